@@ -204,6 +204,7 @@ type Interp struct {
 	decisions []bool
 	condVars  []int
 	segEnds   []int
+	asmCalls  int // constant-time mode: number of summarised calls of assembly routines
 }
 
 type frame struct {
@@ -211,6 +212,8 @@ type frame struct {
 	locals map[ssa.Value]Value
 	free   []Value
 }
+
+var modulePath = "github.com/oasisprotocol/curve25519-voi"
 
 type transErr struct{ msg string }
 
@@ -317,6 +320,16 @@ func (in *Interp) global(g *ssa.Global) *Cell {
 	c, ok := in.globals[g]
 	if !ok {
 		c = newCell(g.Type().(*types.Pointer).Elem())
+		if g.Pkg != nil && g.Pkg.Pkg.Path() == "golang.org/x/sys/cpu" {
+			// CPU feature flags: the assembly build is analysed as on a machine that has every feature (AVX2 paths taken)
+			leaves(c, func(l *Cell) {
+				if b, ok := l.typ.Underlying().(*types.Basic); ok && b.Kind() == types.Bool {
+					l.val = Conc{big.NewInt(1)}
+				}
+			})
+			in.globals[g] = c
+			return c
+		}
 		// package-level variables are only trusted once the interpreted initialiser has stored into them
 		if g.Name() != "init$guard" && !in.initComplete {
 			leaves(c, func(l *Cell) { l.val = Unknown{"package-level variable " + g.Name() + " not initialised by the interpreted init"} })
@@ -858,6 +871,38 @@ func (in *Interp) call(fn *ssa.Function, args []Value, free []Value) Value {
 	if r, ok := in.intrinsic(fn, args); ok {
 		return r
 	}
+	if in.em.countOnly && !in.inInit && fn.Name() == "keccakF1600Bytes" && fn.Pkg != nil && strings.HasSuffix(fn.Pkg.Pkg.Path(), "/internal/strobe") {
+		// assembly build: the wrapper reinterprets the 200-byte state as 25 words through unsafe.Pointer and calls the
+		// assembly permutation; summarised like any other assembly routine (see asmSummary)
+		if k, ok := fn.Pkg.Members["keccakF1600"].(*ssa.Function); ok && k.Blocks == nil {
+			p, ok := args[0].(PtrV)
+			if !ok || len(p.c.kids) != 200 {
+				fail("keccakF1600Bytes: unexpected argument")
+			}
+			conc := true
+			for _, c := range p.c.kids {
+				if _, ok := c.val.(Conc); !ok {
+					conc = false
+				}
+			}
+			in.asmCalls++
+			if conc {
+				var st [25]uint64
+				for i, c := range p.c.kids {
+					st[i/8] |= c.val.(Conc).v.Uint64() << (8 * uint(i%8))
+				}
+				keccakF1600Ref(&st)
+				for i, c := range p.c.kids {
+					c.val = Conc{new(big.Int).SetUint64((st[i/8] >> (8 * uint(i%8))) & 0xff)}
+				}
+			} else {
+				for _, c := range p.c.kids {
+					c.val = SymV{in.em.emit(Op{kind: "opaque"})}
+				}
+			}
+			return nil
+		}
+	}
 	if in.inInit && in.depth > 0 {
 		// package initialisers: other packages' init() are run separately (module) or not needed (external);
 		// functions outside the module are not interpreted, their results are Unknown
@@ -880,6 +925,9 @@ func (in *Interp) call(fn *ssa.Function, args []Value, free []Value) Value {
 	if fn.Blocks == nil {
 		if in.inInit {
 			return Unknown{"external " + fn.String()}
+		}
+		if in.em.countOnly && fn.Pkg != nil && strings.HasPrefix(fn.Pkg.Pkg.Path(), modulePath) {
+			return in.asmSummary(fn, args)
 		}
 		fail("call to function without body: %s", fn.String())
 	}
@@ -1167,6 +1215,97 @@ func (in *Interp) call(fn *ssa.Function, args []Value, free []Value) Value {
 		}
 		prev, b = b, next
 	}
+}
+
+// asmSummary: constant-time mode only.  A function of the module that has no Go body is one of the hand-written amd64
+// assembly routines (field arithmetic, AVX2 vector arithmetic, SSE2 table lookups, Keccak-f).  Their *control flow and
+// addressing* are pinned separately (lib/asmlint.py against lib/asm_skeleton.json: straight-line code or counted loops,
+// no data-indexed addressing), so for the leak analysis a call is a primitive whose memory effects are over-approximated:
+// every leaf reachable through a pointer argument becomes an opaque (secret) value; scalar arguments are only read.
+// In witness mode (all inputs concrete) the leaves become a deterministic pseudo-random function of everything the
+// routine could read.  A routine that returns a value is not summarised (none exists in the tree).
+func (in *Interp) asmSummary(fn *ssa.Function, args []Value) Value {
+	if fn.Signature.Results().Len() != 0 {
+		fail("assembly routine %s returns a value: no summary", fn.String())
+	}
+	// public data stays public: when everything the routine can read is concrete, the field routines are evaluated
+	// through their generic Go twins (same contract, possibly another limb distribution) and Keccak-f by a reference
+	// implementation, so that later branches on public values (decoding a public point, transcript framing) are decided
+	concAll := true
+	for _, a := range args {
+		switch x := a.(type) {
+		case PtrV:
+			leaves(x.c, func(l *Cell) {
+				if _, ok := l.val.(Conc); !ok {
+					concAll = false
+				}
+			})
+		case Conc:
+		default:
+			concAll = false
+		}
+	}
+	if concAll {
+		if twin := map[string]string{"feMul": "feMulGeneric", "fePow2k": "fePow2kGeneric"}[fn.Name()]; twin != "" && strings.HasSuffix(fn.Pkg.Pkg.Path(), "/internal/field") {
+			if g, ok := fn.Pkg.Members[twin].(*ssa.Function); ok && g.Blocks != nil {
+				return in.call(g, args, nil)
+			}
+		}
+		if fn.Name() == "keccakF1600" && strings.HasSuffix(fn.Pkg.Pkg.Path(), "/internal/strobe") {
+			if p, ok := args[0].(PtrV); ok && len(p.c.kids) == 25 {
+				var st [25]uint64
+				for i, k := range p.c.kids {
+					st[i] = k.val.(Conc).v.Uint64()
+				}
+				keccakF1600Ref(&st)
+				for i, k := range p.c.kids {
+					k.val = Conc{new(big.Int).SetUint64(st[i])}
+				}
+				return nil
+			}
+		}
+	}
+	var cells []*Cell
+	allConc := true
+	h := sha256.New()
+	h.Write([]byte(fn.String()))
+	for _, a := range args {
+		switch x := a.(type) {
+		case PtrV:
+			leaves(x.c, func(l *Cell) {
+				cells = append(cells, l)
+				if c, ok := l.val.(Conc); ok {
+					h.Write(c.v.Bytes())
+					h.Write([]byte{0})
+				} else {
+					allConc = false
+				}
+			})
+		case Conc:
+			h.Write(x.v.Bytes())
+			h.Write([]byte{1})
+		case SymV:
+			allConc = false
+		case NilV:
+		default:
+			fail("assembly routine %s called with an argument of kind %T: no summary", fn.String(), a)
+		}
+	}
+	in.asmCalls++
+	seed := h.Sum(nil)
+	for i, l := range cells {
+		n, _ := width(l.typ)
+		if n == 0 {
+			fail("assembly routine %s reaches a non-integer leaf (%s)", fn.String(), l.typ)
+		}
+		if allConc && in.concrete != nil {
+			d := sha256.Sum256(append(append([]byte{}, seed...), byte(i), byte(i>>8), byte(i>>16)))
+			l.val = Conc{norm(new(big.Int).SetBytes(d[:8]), n)}
+		} else {
+			l.val = SymV{in.em.emit(Op{kind: "opaque"})}
+		}
+	}
+	return nil
 }
 
 func (in *Interp) slice(f *frame, x *ssa.Slice) Value {
@@ -2056,6 +2195,7 @@ func main() {
 		globals = flag.String("globals", "", "comma separated <pkg>:<tags>:<LeanGroup> triples: dump every package-level variable after interpreting the initialisers")
 	)
 	flag.Parse()
+	modulePath = *module
 	ctCountOnly = *ctOut != ""
 	if *globals != "" {
 		dumpGlobals(*repo, *module, *globals, *leanDir)
@@ -2581,4 +2721,43 @@ func witnessSearch(prog *ssa.Program, pkg *ssa.Package, globals map[*ssa.Global]
 		}
 	}
 	return false
+}
+
+// keccakF1600Ref: reference Keccak-f[1600] (FIPS 202), used only to keep public transcript state concrete when the
+// assembly permutation is summarised.
+func keccakF1600Ref(a *[25]uint64) {
+	rc := [24]uint64{0x0000000000000001, 0x0000000000008082, 0x800000000000808A, 0x8000000080008000, 0x000000000000808B, 0x0000000080000001,
+		0x8000000080008081, 0x8000000000008009, 0x000000000000008A, 0x0000000000000088, 0x0000000080008009, 0x000000008000000A,
+		0x000000008000808B, 0x800000000000008B, 0x8000000000008089, 0x8000000000008003, 0x8000000000008002, 0x8000000000000080,
+		0x000000000000800A, 0x800000008000000A, 0x8000000080008081, 0x8000000000008080, 0x0000000080000001, 0x8000000080008008}
+	rot := [25]uint{0, 1, 62, 28, 27, 36, 44, 6, 55, 20, 3, 10, 43, 25, 39, 41, 45, 15, 21, 8, 18, 2, 61, 56, 14}
+	for r := 0; r < 24; r++ {
+		var c [5]uint64
+		for x := 0; x < 5; x++ {
+			c[x] = a[x] ^ a[x+5] ^ a[x+10] ^ a[x+15] ^ a[x+20]
+		}
+		for x := 0; x < 5; x++ {
+			d := c[(x+4)%5] ^ (c[(x+1)%5]<<1 | c[(x+1)%5]>>63)
+			for y := 0; y < 25; y += 5 {
+				a[y+x] ^= d
+			}
+		}
+		var b [25]uint64
+		for x := 0; x < 5; x++ {
+			for y := 0; y < 5; y++ {
+				v := a[x+5*y]
+				k := rot[x+5*y]
+				if k != 0 {
+					v = v<<k | v>>(64-k)
+				}
+				b[y+5*((2*x+3*y)%5)] = v
+			}
+		}
+		for y := 0; y < 25; y += 5 {
+			for x := 0; x < 5; x++ {
+				a[y+x] = b[y+x] ^ (^b[y+(x+1)%5] & b[y+(x+2)%5])
+			}
+		}
+		a[0] ^= rc[r]
+	}
 }
